@@ -259,6 +259,12 @@ func zzPDRProfile(p int) zzPDRSpec {
 	sp.nurr = (q >> 6) / 3 % 3
 	sp.nsdf = (q >> 6) / 9 % 3
 	sp.sdfFD = sp.nsdf > 0 && q&1 != 0
+	// well-formed: Source Interface is mandatory in a PDI (TS 29.244 table 7.5.2.2-2). A PDI without
+	// it is outside "every well-formed Create/Update PDR"; what the driver does with it (it treats
+	// the missing value as Access and swaps the filter) is not something the property defines.
+	if sp.fteid || sp.ueip || sp.nsdf > 0 {
+		sp.srcIf = true
+	}
 	return sp
 }
 
